@@ -161,3 +161,124 @@ contract(F, "Server.serviceAxes", "C26", params=dict(self=Ref("Server")),
          raises={"ValueError": ["True"], "OSError": ["True"]},
          note="ValueError only for a malformed accepted socket (peer name differs from the accepted address); "
               "a repeated peer address must NOT raise")
+
+
+# ---------------------------------------------------------------- TLS server: accepted -> .cxes (handshaking) -> .ixes
+# Statement for the table of accepted connections (.ixes): one entry per peer address; a connection that finishes its
+# handshake for an address that still has a stale entry shuts the stale connection down and replaces it.
+classdecl("ServerTls", file=F, bases=("Server",),
+          fields=dict(cxes=Dict(HA, Ref("Incomer")), context=Opaque("tlsopt"), version=Opaque("tlsopt"),
+                      certify=Opaque("tlsopt"), keypath=Opaque("tlsopt"), certpath=Opaque("tlsopt"),
+                      cafilepath=Opaque("tlsopt")))
+classdecl("IncomerTls2", fields={})
+REG.classes.setdefault("IncomerTls", REG.classes.get("IncomerTls"))      # declared by c24_streams (transport template)
+
+
+def _incomertls_ctor(E, cv, args, kwargs):
+    return _incomer_ctor(E, cv, args, kwargs)
+
+
+REG.classes["IncomerTls"].hooks[("ctor", None)] = _incomertls_ctor
+
+
+def _handshake_attr(E, obj):
+    """cx.serviceHandshake(): opaque, returns an arbitrary truth value; the result is recorded in the ghost list
+    g_hs (one entry per loop iteration) so that post-conditions can speak about it"""
+    def m(E2):
+        v = E2.fresh_val("handshook", BOOL)
+        E2.ct_append("Incomer.serviceHandshake", obj, None)
+        lv = E2.frame.env.get("g_hs")
+        if lv is not None:
+            B.list_method(E2, lv, "append", [v], {})
+        return v
+    m._specfunc = True
+    return m
+
+
+REG.classes["Incomer"].hooks[("getattr", "serviceHandshake")] = _handshake_attr
+
+
+@external("dict.items")
+def _dict_items26(E, args, kwargs):
+    """dict.items(): the (key, value) pairs of the PRESENT keys, each key exactly once"""
+    dv = args[0]
+    n = E.fresh("nitems", z3.IntSort())
+    E.assume(n >= 0)
+    keys = E.fresh("itemkeys", z3.ArraySort(z3.IntSort(), E.ksort(dv.kt)))
+    dom, vals = E.ddom(dv), E.dvals(dv)
+    a, b = z3.Ints("a!it b!it")
+    E.assume(z3.ForAll([a, b], z3.Implies(z3.And(0 <= a, a < b, b < n), z3.Select(keys, a) != z3.Select(keys, b))))
+    E.assume(z3.ForAll([a], z3.Implies(z3.And(0 <= a, a < n), z3.Select(dom, z3.Select(keys, a)))))
+    kl = E.new_list(dv.kt, n, [keys])
+    vl = E.new_list(dv.vt, n, [z3.Lambda([B.KLAM], z3.Select(vals[0], z3.Select(keys, B.KLAM)))])
+    E.frame.env["g_keys"], E.frame.env["g_vals"] = kl, vl
+
+    def at(E2, i):
+        return (E2.lget(kl, i), E2.lget(vl, i))
+    return B.AbstractIter(n, at)
+
+
+def _setup_hs(E):
+    E.frame.env["g_hs"] = E.new_list(BOOL, 0)
+
+
+def _old_ixes(E, self_):
+    heap = E.heap
+    E.heap = dict(E.heap_old)
+    try:
+        d = E.rd_field(self_, "ixes")
+        return d, E.ddom(d), E.dvals(d)[0]
+    finally:
+        E.heap = heap
+
+
+@specfunc
+def ix_had(E, self_, k):
+    """k was a key of the table of accepted connections at entry"""
+    _d, dom, _v = _old_ixes(E, self_)
+    return Sym(z3.Select(dom, k.t), "bool")
+
+
+@specfunc
+def ix_was(E, self_, k):
+    """the connection object the table held for k at entry"""
+    _d, _dom, v = _old_ixes(E, self_)
+    return RefV(z3.Select(v, k.t), "Incomer", nn=True)
+
+
+DISTINCT = ("forall(Opaque('ha'), Opaque('ha'), lambda k1, k2: implies(k1 != k2 and k1 in self.ixes and k2 in self.ixes, "
+            "self.ixes[k1] is not self.ixes[k2]))")
+contract(F, "ServerTls.serviceCxes", "C26", params=dict(self=Ref("ServerTls")), setup=_setup_hs,
+         requires=["self.cxes is not self.ixes"],
+         assumes=["forall(Opaque('ha'), Opaque('ha'), lambda k1, k2: implies(k1 in self.cxes and k2 in self.ixes, "
+                  "self.cxes[k1] is not self.ixes[k2]))"],
+         modifies=["self.ixes{*}", "self.cxes{*}", havoc_all_but({"Incomer": ["shut"]}, keep=[])], frame=False,
+         loops={0: dict(inv=[
+             "len(g_hs) == _i",
+             # processed pairs: handshake done -> moved into the table of accepted connections, pending entry removed,
+             # and a stale entry it replaced was shut down; not done -> still pending, table entry untouched
+             "forall(lambda j: implies(0 <= j and j < _i and g_hs[j], g_keys[j] in self.ixes and "
+             "self.ixes[g_keys[j]] is g_vals[j] and g_keys[j] not in self.cxes))",
+             "forall(lambda j: implies(0 <= j and j < _i and g_hs[j] and ix_had(self, g_keys[j]), "
+             "ix_was(self, g_keys[j]).shut))",
+             "forall(lambda j: implies(0 <= j and j < _i and not g_hs[j], g_keys[j] in self.cxes and "
+             "self.cxes[g_keys[j]] is g_vals[j]))",
+             # not yet processed: still pending, untouched
+             "forall(lambda j: implies(_i <= j and j < len(g_keys), g_keys[j] in self.cxes and "
+             "self.cxes[g_keys[j]] is g_vals[j]))",
+             # no key of the accepted table disappears; entries of other addresses are the same objects
+             "forall(Opaque('ha'), lambda k: implies(old(k in self.ixes), k in self.ixes))",
+             "forall(Opaque('ha'), lambda k: implies(k in self.ixes and not exists(lambda j: 0 <= j and j < _i and "
+             "g_hs[j] and g_keys[j] == k), old(k in self.ixes) and self.ixes[k] is old(self.ixes[k])))",
+         ], locals={})},
+         ensures=[
+             "forall(lambda j: implies(0 <= j and j < len(L_g_keys) and L_g_hs[j], L_g_keys[j] in self.ixes and "
+             "self.ixes[L_g_keys[j]] is L_g_vals[j] and L_g_keys[j] not in self.cxes))",
+             # replacing a stale entry of the same peer address shuts the stale connection down
+             "forall(lambda j: implies(0 <= j and j < len(L_g_keys) and L_g_hs[j] and ix_had(self, L_g_keys[j]), "
+             "ix_was(self, L_g_keys[j]).shut))",
+             "forall(Opaque('ha'), lambda k: implies(old(k in self.ixes), k in self.ixes))",
+         ],
+         raises={},
+         note="cx.serviceHandshake() is opaque (any result); a pending connection and an accepted one are distinct "
+              "objects (structural assumption)")
